@@ -73,7 +73,11 @@ def run(res: Results, idx: Index, tier: str) -> None:
             continue
         tc = tcalls[0]
         perm_e = next((k.value for k in tc.keywords if k.arg == "perm"), None)
-        used = {(_perm_role(n) or "") for n in (du.closure(names_in(perm_e)) | names_in(perm_e))} - {""} if perm_e is not None else set()
+        used = set()
+        if perm_e is not None:
+            used = {(_perm_role(n) or "") for n in names_in(perm_e)} - {""}
+            if not used:
+                used = {(_perm_role(n) or "") for n in du.closure(names_in(perm_e))} - {""}
         if used == {want_perm}:
             res.ok("R-C12a", f"{CA}:{tc.lineno}", key, f"perm= derives from {perms[want_perm][0]}", f.qualname)
         else:
